@@ -23,13 +23,27 @@ Qed.
 Definition sum_len (es : list entry) : N := fold_right (fun e a => e_len e + a) 0 es.
 
 (* ------------------------------------------------------------------ admissible operations *)
+(* every append, batch (accepted or rejected for its size, its entry count, its topic name),
+   read and count is admissible; restarts are C06's subject *)
 Definition op_ok (c : Cfg) (o : op) : Prop :=
   match o with
-  | OAppend t e => name_ok c t = true /\ need c e <= c_max_alloc c
-  | OBatch t es => batch_ok c t es
-  | ORead _ _ | OCount _ | OBatchRead _ _ _ _ => True
   | OReopen => False
+  | _ => True
   end.
+
+Lemma appendable_none_inv c t l : cfg_ok c -> appendable c t l = None ->
+  name_ok c t = true /\ c_hdr c + l <= c_max_alloc c.
+Proof.
+  intros (Hh & Hb0 & Hba & Hbm & Hme & Hhb). unfold appendable.
+  destruct (c_max_alloc c <? N.min u64_max (c_hdr c + l)) eqn:E; [discriminate|].
+  destruct (name_ok c t); cbn [negb]; [|discriminate]. intros _. split; [reflexivity|lia].
+Qed.
+
+Lemma max_len_forall c es : c_hdr c + max_len es <= c_max_alloc c -> Forall (fun e => need c e <= c_max_alloc c) es.
+Proof.
+  induction es as [|e es IH]; intros H; [constructor|]. cbn [max_len fold_right] in H. fold (max_len es) in H.
+  constructor; [unfold need; lia|apply IH; lia].
+Qed.
 
 Definition offered (o : op) : list entry :=
   match o with OAppend _ e => [e] | OBatch _ es => es | _ => [] end.
@@ -129,7 +143,12 @@ Proof.
   intros Hc Hrel Hok HB HBb. pose proof Hrel as (Hg & Hall).
   destruct o as [t e | t es | t ck | t maxb ck start | t | ]; cbn [step env_of v_cfg v_mode v_backend op_ok offered] in *.
   - (* append *)
-    destruct Hok as (Hname & Hsz).
+    destruct (appendable c t (e_len e)) as [k|] eqn:Eap.
+    { (* rejected on its arguments: nothing happened at all *)
+      unfold append. rewrite Eap. cbn [c01_step_ok c15_step_ok c03_step_ok ledger_step].
+      split; [reflexivity|]. split; [reflexivity|]. split; [reflexivity|].
+      destruct Hrel as (Hg0 & Hall0). split; [exact Hg0|]. intros t0. destruct (Hall0 t0) as (A & B0 & C0 & D & E). repeat split; auto; lia. }
+    destruct (appendable_none_inv c t _ Hc Eap) as (Hname & Hsz). fold (need c e) in Hsz.
     destruct (Hall (t_id t)) as (Hd & Hs & Hu & Hb1 & Hb2).
     assert (Hcb : cnt (get_ts s (t_id t)) + 1 <= u64_max).
     { destruct Hg as (_ & Hti). rewrite (ti_cnt _ _ _ (Hti (t_id t))), Hu, skipn_length. cbn [length] in HB. lia. }
@@ -144,6 +163,13 @@ Proof.
       * rewrite Hun, Hu. now rewrite skipn_app_le by lia.
       * rewrite sum_len_app. cbn. unfold sum_len in *. cbn in *. lia.
   - (* batch *)
+    destruct (appendable c t (max_len es)) as [k|] eqn:Eap.
+    { unfold batch. rewrite Eap. cbn [c01_step_ok c15_step_ok c03_step_ok ledger_step].
+      split; [reflexivity|]. split; [reflexivity|]. split; [reflexivity|].
+      destruct Hrel as (Hg0 & Hall0). split; [exact Hg0|]. intros t0. destruct (Hall0 t0) as (A & B0 & C0 & D & E). repeat split; auto; lia. }
+    destruct (appendable_none_inv c t _ Hc Eap) as (Hname & Hsz0).
+    assert (Hok' : batch_ok c t es) by (split; [exact Hname|now apply max_len_forall]).
+    clear Hok. rename Hok' into Hok.
     destruct (Hall (t_id t)) as (Hd & Hs & Hu & Hb1 & Hb2).
     assert (Hcb : cnt (get_ts s (t_id t)) + N.of_nat (length es) <= u64_max).
     { destruct Hg as (_ & Hti). rewrite (ti_cnt _ _ _ (Hti (t_id t))), Hu, skipn_length. lia. }
